@@ -212,9 +212,24 @@ func (c *ordCtx) classifyMapRange(rs *ast.RangeStmt) (verdict, how string) {
 		id := identOf(e)
 		return id != nil && keyDerived[objOf(info, id)]
 	}
-	isConst := func(e ast.Expr) bool {
-		tv, ok := info.Types[e]
-		return ok && tv.Value != nil
+	var isConst func(e ast.Expr) bool
+	isConst = func(e ast.Expr) bool {
+		if tv, ok := info.Types[e]; ok && tv.Value != nil {
+			return true
+		}
+		// a composite literal all of whose elements are constants (struct{}{}, [2]int{1, 2}) is the same value on every iteration
+		if lit, ok := ast.Unparen(e).(*ast.CompositeLit); ok {
+			for _, el := range lit.Elts {
+				if kv, ok := el.(*ast.KeyValueExpr); ok {
+					el = kv.Value
+				}
+				if !isConst(el) {
+					return false
+				}
+			}
+			return true
+		}
+		return false
 	}
 	declaredInBody := func(o types.Object) bool {
 		return o != nil && o.Pos() >= rs.Body.Pos() && o.Pos() <= rs.Body.End()
@@ -429,7 +444,19 @@ var justifiedORD = map[string]ordJust{
 			for _, st := range rs.Body.List {
 				switch s := st.(type) {
 				case *ast.IfStmt:
-					if s.Else != nil || !terminates(s.Body) {
+					onlyCalls := s.Else == nil
+					for _, b := range s.Body.List {
+						es0, ok := b.(*ast.ExprStmt)
+						if !ok {
+							onlyCalls = false
+							continue
+						}
+						if _, ok := es0.X.(*ast.CallExpr); !ok {
+							onlyCalls = false
+						}
+					}
+					// `if skip { continue }` or `if !skip { recurse }`
+					if s.Else != nil || !(terminates(s.Body) || onlyCalls) {
 						return false, "the import loop has a conditional effect other than skipping a package"
 					}
 				case *ast.ExprStmt:
@@ -749,6 +776,8 @@ func runORD1(w *World, r *Result, only func(rel string) bool) int {
 					v, how := c.classifyMapRange(rs)
 					if v == VOK {
 						r.ok("ORD-1", c.fn, cons, pos, how, true)
+					} else if good, why := uniquePkgSearch(c, rs); good {
+						r.justified("ORD-1", c.fn, cons, pos, why)
 					} else {
 						r.bad("ORD-1", c.fn, cons, pos, "iteration order of a Go map is random per run; "+how)
 					}
@@ -945,4 +974,78 @@ func runORD4(w *World, r *Result) int {
 		}
 	}
 	return n
+}
+
+// uniquePkgSearch recognises, whatever the function is called, the search of the import graph for the one package
+// with a given identity: a range over a map of *packages.Package whose body only skips packages (`if c {continue}`)
+// and returns the first non-nil result of a recursive call of the enclosing function (or function literal), that
+// function accepting the visited package only under an equality of package identities (searchSideUniquePkg). At most
+// one package of the graph satisfies the equality, so the result does not depend on the visiting order.
+func uniquePkgSearch(c *ordCtx, rs *ast.RangeStmt) (bool, string) {
+	mt, ok := c.info.TypeOf(rs.X).Underlying().(*types.Map)
+	if !ok || !strings.HasSuffix(mt.Elem().String(), "golang.org/x/tools/go/packages.Package") {
+		return false, ""
+	}
+	// the enclosing walker: a function literal bound to a variable, or the declared function
+	var self types.Object = c.info.Defs[c.fd.Name]
+	ast.Inspect(c.fd.Body, func(n ast.Node) bool {
+		as, ok := n.(*ast.AssignStmt)
+		if !ok || len(as.Lhs) != 1 || len(as.Rhs) != 1 {
+			return true
+		}
+		if fl, ok := as.Rhs[0].(*ast.FuncLit); ok && fl.Body.Pos() <= rs.Pos() && rs.End() <= fl.Body.End() {
+			if id := identOf(as.Lhs[0]); id != nil {
+				self = objOf(c.info, id)
+			}
+		}
+		return true
+	})
+	for _, st := range rs.Body.List {
+		is, ok := st.(*ast.IfStmt)
+		if !ok || is.Else != nil {
+			return false, ""
+		}
+		if is.Init == nil {
+			if len(is.Body.List) != 1 {
+				return false, ""
+			}
+			if br, ok := is.Body.List[0].(*ast.BranchStmt); !ok || br.Tok != token.CONTINUE {
+				return false, ""
+			}
+			continue
+		}
+		as, ok := is.Init.(*ast.AssignStmt)
+		if !ok || len(as.Rhs) != 1 || len(as.Lhs) != 1 {
+			return false, ""
+		}
+		call, ok := as.Rhs[0].(*ast.CallExpr)
+		if !ok {
+			return false, ""
+		}
+		var callee types.Object
+		switch f := ast.Unparen(call.Fun).(type) {
+		case *ast.Ident:
+			callee = objOf(c.info, f)
+		case *ast.SelectorExpr:
+			callee = objOf(c.info, f.Sel)
+		}
+		if callee == nil || callee != self {
+			return false, ""
+		}
+		be, ok := ast.Unparen(is.Cond).(*ast.BinaryExpr)
+		if !ok || be.Op != token.NEQ || es(be.Y) != "nil" || identOf(be.X) == nil || objOf(c.info, identOf(be.X)) != objOf(c.info, identOf(as.Lhs[0])) {
+			return false, ""
+		}
+		if len(is.Body.List) != 1 {
+			return false, ""
+		}
+		ret, ok := is.Body.List[0].(*ast.ReturnStmt)
+		if !ok || len(ret.Results) != 1 || identOf(ret.Results[0]) == nil || objOf(c.info, identOf(ret.Results[0])) != objOf(c.info, identOf(as.Lhs[0])) {
+			return false, ""
+		}
+	}
+	if good, _ := searchSideUniquePkg(c, rs); !good {
+		return false, ""
+	}
+	return true, "depth-first search of the import graph for the package with a given identity: the loop only skips packages and returns the first non-nil result of the recursive call, and the walker accepts a package only under an equality of import paths or package objects, which at most one package of the graph satisfies; the result does not depend on the visiting order [recognised structurally on this run]"
 }
